@@ -244,8 +244,15 @@ Proof.
 Qed.
 
 (* the SignedInfo re-read from the verified bytes: same record as the one read in findSignature *)
+(* (xml.Unmarshal of the canonical bytes reads the re-parsed element DIRECTLY: no second end-of-line normalisation, so the
+   record carries the values as they stand in that tree) *)
+Definition sinfo_rec_direct (sm cid uri hid dv : string) : signed_info :=
+  {| si_c14n_alg := cid; si_sig_alg := sm;
+     si_refs := [ {| ref_uri := uri; ref_digest_value := (dv ++ "")%string; ref_digest_alg := hid;
+                     ref_transforms := [ {| tr_alg := enveloped_signature_id; tr_prefix_list := None |};
+                                         {| tr_alg := cid; tr_prefix_list := None |} ] |} ] |}.
 Lemma unmarshal_prepared_signed_info L sm cid uri hid dv : In L decl_sets -> In cid c14n_ids ->
-  unmarshal_signed_info (snd (si_prepared cid (si_det L (si_el sm cid uri hid dv)))) = Ok (sinfo_rec sm cid uri hid dv).
+  unmarshal_signed_info (snd (si_prepared cid (si_det L (si_el sm cid uri hid dv)))) = Ok (sinfo_rec_direct sm cid uri hid dv).
 Proof.
   intros HL HC. cbn [decl_sets c14n_ids In] in HL, HC.
   destruct HL as [<-|[<-|[<-|[]]]]; destruct HC as [<-|[<-|[<-|[<-|[<-|[<-|[]]]]]]]; vm_compute; reflexivity.
@@ -570,13 +577,18 @@ Section SignVerify.
     rewrite Hrsi.
     replace p with (snd (si_prepared cid (si_det L si))) by (rewrite Hprepd; reflexivity).
     unfold si. rewrite (unmarshal_prepared_signed_info L sm cid uri hid dv HL HCin). fold si. cbn [bind].
-    unfold pick_reference. rewrite Hidr'. cbn [sinfo_rec si_refs].
-    match goal with |- context [existsb (ref_matches ref) ?l] => change (existsb (ref_matches ref) l) with (ref_ok ref uri) end.
-    unfold uri at 1. rewrite (ref_ok_built ref Hcrf). cbn [last ref_digest_value].
-    rewrite Hdv, chd_base64, base64_decode_encode.
-    unfold transform. cbn [ref_transforms found fs_path]. rewrite (cr_c14n_id cid HCin).
+    unfold pick_reference. rewrite Hidr'. cbn [sinfo_rec_direct si_refs].
+    assert (Hmatch : existsb (ref_matches ref)
+              [ {| ref_uri := uri; ref_digest_value := (dv ++ "")%string; ref_digest_alg := hid;
+                   ref_transforms := [ {| tr_alg := enveloped_signature_id; tr_prefix_list := None |};
+                                       {| tr_alg := cid; tr_prefix_list := None |} ] |} ] = true).
+    { cbn [existsb]. unfold ref_matches. cbn [ref_uri]. unfold uri. destruct (ref =?s "") eqn:Er; [reflexivity|].
+      cbn [drop1 String.append]. rewrite String.eqb_refl. reflexivity. }
+    rewrite Hmatch. cbn [last ref_digest_value].
+    rewrite app_nil_r_s, Hdv, base64_decode_encode.
+    unfold transform. cbn [ref_transforms found fs_path].
     unfold root'. rewrite (transforms_enveloped_then cid sp t a c0 sg' rest HCin eq_refl). cbn [bind fst snd].
-    rewrite <- HCalg, Hcan. cbn [ref_digest_alg]. unfold hid. rewrite digest_id_cr. fold hid. rewrite Hdig.
+    rewrite <- HCalg, Hcan. cbn [ref_digest_alg]. rewrite Hdig.
     destruct (d =?s want); cbn [negb]; [|reflexivity].
     assert (Hl20 : Nat.ltb (String.length d) 20 = false) by (apply Nat.ltb_ge; exact Hlen).
     rewrite Hl20, Hrep. reflexivity.
